@@ -271,6 +271,13 @@ def mutated_streams(draw, allow_valid=True):
         else:
             d, changed = draw(field_mutation(desc, corpus_paths(i)))
             meta["ops"] += [repr(c[0][-1]) for c in changed]
+        # a padding/auxiliary unit's next_parse_offset is its length: keep it bounded, otherwise the
+        # serialiser zero-pads the payload to (up to) 4 GB one bit at a time
+        for seq in d.get("sequences", []):
+            for du in seq.get("data_units", []):
+                pi = du.get("parse_info", {})
+                if pi.get("parse_code") in (0x20, 0x30) and isinstance(pi.get("next_parse_offset"), int):
+                    pi["next_parse_offset"] = min(pi["next_parse_offset"], 13 + 2048)
         fix_offsets = draw(st.booleans())
         try:
             from vpbt.gen import streams as S
